@@ -18,6 +18,9 @@ pub static mut ORIGIN: [usize; MAXT] = [NONE; MAXT]; // source token of a clone
 pub static mut NEXT: usize = 1; // id 0 is never issued: zeroed (never written) slots are not live
 pub static mut DROPPING: usize = NONE;
 pub static mut CALLBACKS: usize = 0;
+/// C17: when set, every `==` on tokens answers arbitrarily (a fresh nondeterministic
+/// bool per call) - one proof covers all outcome sequences of all comparisons
+pub static mut LAWLESS: bool = false;
 
 pub static mut WATCH_PTR: [*const (); 3] = [core::ptr::null(); 3];
 pub static mut WATCH_FN: [Option<fn(*const ())>; 3] = [None; 3];
@@ -71,6 +74,9 @@ impl PartialEq for Tok {
     fn eq(&self, o: &Self) -> bool {
         assert!(is_live(self.id) && is_live(o.id), "C02: compared a dead or uninitialised element");
         monitor();
+        if unsafe { LAWLESS } {
+            return kani::any();
+        }
         self.key == o.key
     }
 }
